@@ -9,6 +9,7 @@ AirTouchSocket with a simulated transport that pauses writing."""
 from __future__ import annotations
 
 import random
+from collections import Counter
 
 from . import common, sockcorr, sockrun
 
@@ -18,8 +19,17 @@ ENC_OK = sockrun.ENC_OK if hasattr(sockrun, "ENC_OK") else 0
 def scripts(rng: random.Random, n: int):
     for _ in range(n):
         s = [("open",), ("adv", 1)]
-        mode = rng.randrange(10)
-        if mode == 9:
+        mode = rng.randrange(11)
+        if mode == 10:
+            # the connection dies (any OSError class) while a drain loop is suspended in drain(): that is a transient
+            # write failure for the suspended message - with a retry left it is sent again on the next connection
+            s.append(("bp", 1))
+            k, pol = rng.choice([0, 1, 4]), rng.choice([0, 0, 3, 4])
+            s.append(("send", k, pol))
+            if rng.random() < 0.5:
+                s.append(("send", rng.choice([0, 1, 4]), rng.choice([0, 3])))
+            s += [("lostparked",), ("rst",), ("bp", 0), ("adv", 5), ("adv", 50), ("send", rng.choice([0, 1, 4]), 0), ("adv", 50)]
+        elif mode == 9:
             # a connection subscriber that sends on the connected notification (what the API classes do), with
             # messages pending from an outage: the pending ones go first, in order, then the subscriber's
             s = [("subsend", rng.choice([0, 1, 4]), rng.choice([0, 2, 3])), ("open",), ("adv", 1)]
@@ -91,6 +101,7 @@ def monitor(gen: int, script, out, pid0: int) -> list[str]:
     pending_close = None
     must_write_from = None
     sub_send = None
+    resend, lost_at, after_loss = set(), None, Counter()
     for idx, (st, evs) in enumerate(zip(script, out)):
         sends = []
         if st[0] == "send":
@@ -102,6 +113,12 @@ def monitor(gen: int, script, out, pid0: int) -> list[str]:
             continue
         elif st[0] == "subsend":
             sub_send = (st[1], st[2]) if st[1] >= 0 else None
+            continue
+        elif st[0] == "lostparked":
+            # every message handed to the transport so far sits in a suspended drain loop (or behind it in the queue)
+            resend = {pid for pid, n in written.items() if n >= 1 and retries_of.get(pid, 0) >= 1}
+            resend |= {pid for pid in acc if pid not in written and retries_of.get(pid, 0) >= 1}
+            lost_at = idx
             continue
         if sub_send is not None and any(e[0] == "open" for e in evs):
             sends = sends + [sub_send]          # the subscriber's send inside the connected notification
@@ -143,15 +160,23 @@ def monitor(gen: int, script, out, pid0: int) -> list[str]:
                     bad.append(f"step {idx}: a frame (message {k}, packet id {pid}) was written that no accepted send produced")
                     continue
                 written[pid] = written.get(pid, 0) + 1
-                if written[pid] > 1:
+                if lost_at is not None:
+                    after_loss[pid] += 1
+                if written[pid] > 1 and not (pid in resend and after_loss[pid] == 1):
                     bad.append(f"step {idx}: the message with packet id {pid} was written {written[pid]} times (no write fault occurred)")
                 if now >= a[1] + a[2]:
                     bad.append(f"step {idx}: packet id {pid} written at {now} although its lifetime ended at {a[1] + a[2]}")
-                if last_order.get(c, -1) > a[3]:
+                if last_order.get(c, -1) > a[3] and lost_at is None:       # (order is claimed for fault-free histories only)
                     bad.append(f"step {idx}: packet id {pid} written after a message accepted later")
                 last_order[c] = max(last_order.get(c, -1), a[3])
             elif e[0] in ("garbled", "unhandled", "sendexc", "crash"):
                 bad.append(f"step {idx}: {e}")
+    if lost_at is not None:
+        for pid in sorted(resend):
+            k, at, life, o = acc[pid]
+            if after_loss[pid] == 0 and now < at + life:
+                bad.append(f"packet id {pid} (message {k}) was in a suspended drain loop when the connection died (a single transient "
+                           f"write failure) and was never sent again although it had a retry left and {at + life - now} ticks to live")
     if must_write_from is not None:
         # the link came back at once and nothing expired: every message accepted from the teardown window on,
         # sent with a policy that survives one failed write, must have reached the wire (exactly once)
@@ -356,7 +381,7 @@ def run(ck: common.Check, prop: str, tier: str) -> None:
             elif prop == "C01":
                 bad = [b for b in bad if "lifetime ended" not in b]
             else:
-                bad = [b for b in bad if "lifetime ended" in b or "times (no write fault" in b or "teardown window" in b]
+                bad = [b for b in bad if "lifetime ended" in b or "times (no write fault" in b or "teardown window" in b or "single transient" in b]
             if bad:
                 ck.violation("; ".join(bad[:3]),
                              {"kind": "socket-script-backpressure", "gen": gen, "script": [list(x) for x in script],
